@@ -585,7 +585,6 @@ def v1pre_case(content):
 def worker_main(jobfile, outfile):
     sys.path.insert(0, C.REPO)
     job = json.load(open(jobfile))
-    kind = job["kind"]
     out = open(outfile, "w")
 
     def emit(i, res):
@@ -597,22 +596,34 @@ def worker_main(jobfile, outfile):
         out.flush()
 
     _quiet()
-    if kind == "hostile":
-        ld = _Loader()
-        for i, case in job["cases"]:
-            begin(i)
+    st = {}
+
+    def loader():
+        if "ld" not in st:
+            st["ld"] = _Loader()
+        return st["ld"]
+
+    def parser():
+        if "P" not in st:
+            from nemoguardrails.colang.v2_x.lang.parser import ColangParser
+
+            st["P"] = ColangParser()
+            st["codes"] = {}
+        return st["P"]
+
+    out.write(json.dumps({"ready": True}) + "\n")
+    out.flush()
+    for i, case in job["cases"]:
+        kind = case["kind"]
+        begin(i)
+        if kind == "hostile":
             res = {}
             for entry in case.get("entries", ["from_path", "from_content"]):
-                r = ld.load(entry, case["version"], case["content"])
+                r = loader().load(entry, case["version"], case["content"])
                 res[entry] = r[:2] + [r[2][:160]] if r[0] == "cpe" else r
             emit(i, res)
-        ld.close()
-    elif kind == "layout":
-        from nemoguardrails.colang.v2_x.lang.parser import ColangParser
-
-        P = ColangParser()
-        for i, case in job["cases"]:
-            begin(i)
+        elif kind == "layout":
+            P = parser()
             content, version = case["content"], case["version"]
             rng = random.Random(case["seed"])
             base = parse_canon(content, version)
@@ -644,21 +655,16 @@ def worker_main(jobfile, outfile):
                                     break
                         res["edits"].append([kind_e, k, "DIFF", {"edited": small, "got": parse_canon(small, version)}])
             emit(i, res)
-    elif kind == "lexdiff":
-        from nemoguardrails.colang.v2_x.lang.parser import ColangParser
-
-        P = ColangParser()
-        codes = {}
-        for i, case in job["cases"]:
-            begin(i)
+        elif kind == "lexdiff":
+            P = parser()
             try:
-                emit(i, lexdiff_case(P, case["content"], codes))
+                emit(i, lexdiff_case(P, case["content"], st["codes"]))
             except Exception as e:  # noqa
                 emit(i, {"skip": "harness: " + type(e).__name__ + ": " + str(e)[:100]})
-    elif kind == "v1pre":
-        for i, case in job["cases"]:
-            begin(i)
+        elif kind == "v1pre":
             emit(i, v1pre_case(case["content"]))
+    if "ld" in st:
+        st["ld"].close()
     out.close()
 
 
@@ -666,14 +672,24 @@ def worker_main(jobfile, outfile):
 # parent side: batches in child processes under `timeout`
 
 
-def run_batches(kind, cases, chunk, per_chunk_timeout, tag):
-    """cases: list of dicts. Returns (results: {index: res}, hangs: [index], crashed: [index])."""
+STARTUP_GRACE = 240     # s without output tolerated while a worker imports the library (loaded machine)
+STALL = 60              # s without progress on one case => the worker is killed, the case re-run alone
+
+
+def run_batches(cases, nchunks, tag, hard_timeout=1500):
+    """cases: list of dicts with a "kind".  Every chunk runs in a child process under `timeout`;
+    the parent also watches progress: a case that makes no progress for STALL seconds is re-run
+    alone and, if it stalls again, reported as a hang.
+    Returns (results: {index: res}, hangs: [index], crashed: [(index, stderr)])."""
+    import signal
+
     d = os.path.join(C.BUILD, "c13", tag)
     shutil.rmtree(d, ignore_errors=True)
     os.makedirs(d)
     indexed = list(enumerate(cases))
     results, hangs, crashed = {}, [], []
-    queue = [indexed[i:i + chunk] for i in range(0, len(indexed), chunk)]
+    nchunks = max(1, min(nchunks, len(indexed)))
+    queue = [indexed[k::nchunks] for k in range(nchunks)]
     running = []
     n = 0
     env = dict(os.environ)
@@ -685,48 +701,74 @@ def run_batches(kind, cases, chunk, per_chunk_timeout, tag):
         n += 1
         jf = os.path.join(d, f"job{n}.json")
         of = os.path.join(d, f"out{n}.jsonl")
-        json.dump({"kind": kind, "cases": part}, open(jf, "w"))
-        p = subprocess.Popen(["timeout", "-k", "5", str(per_chunk_timeout), C.PY, "-m", "harness.c13", "--worker", jf, of],
-                             cwd=C.VERIF, env=env, stdout=subprocess.DEVNULL, stderr=subprocess.PIPE)
-        return (p, part, of)
+        json.dump({"cases": part}, open(jf, "w"))
+        p = subprocess.Popen(["timeout", "-k", "5", str(hard_timeout), C.PY, "-m", "harness.c13", "--worker", jf, of],
+                             cwd=C.VERIF, env=env, stdout=subprocess.DEVNULL, stderr=subprocess.PIPE,
+                             start_new_session=True)
+        return {"p": p, "part": part, "of": of, "size": -1, "t": time.time(), "ready": False}
+
+    def read(of):
+        done, begun, ready = {}, None, False
+        if os.path.exists(of):
+            for line in open(of):
+                try:
+                    r = json.loads(line)
+                except Exception:
+                    continue
+                if "ready" in r:
+                    ready = True
+                elif "begin" in r:
+                    begun = r["begin"]
+                else:
+                    done[r["i"]] = r["res"]
+        return done, begun, ready
 
     while queue or running:
         while queue and len(running) < C.NPROC:
             running.append(start(queue.pop(0)))
-        time.sleep(0.05)
+        time.sleep(0.1)
         still = []
-        for p, part, of in running:
-            rc = p.poll()
+        for w in running:
+            rc = w["p"].poll()
+            stalled = False
             if rc is None:
-                still.append((p, part, of))
-                continue
-            done, begun = set(), None
-            if os.path.exists(of):
-                for line in open(of):
+                try:
+                    size = os.path.getsize(w["of"])
+                except OSError:
+                    size = -1
+                if size != w["size"]:
+                    w["size"], w["t"] = size, time.time()
+                    if size > 0:
+                        w["ready"] = True
+                limit = STALL if w["ready"] else STARTUP_GRACE
+                if time.time() - w["t"] > limit:
                     try:
-                        r = json.loads(line)
+                        os.killpg(w["p"].pid, signal.SIGKILL)
                     except Exception:
-                        continue
-                    if "begin" in r:
-                        begun = r["begin"]
-                    else:
-                        results[r["i"]] = r["res"]
-                        done.add(r["i"])
-            rest = [(i, c) for i, c in part if i not in done]
+                        pass
+                    w["p"].wait()
+                    rc, stalled = 124, True
+                else:
+                    still.append(w)
+                    continue
+            done, begun, ready = read(w["of"])
+            results.update(done)
+            rest = [(i, c) for i, c in w["part"] if i not in done]
             if rest:
                 culprit = begun if begun is not None and begun not in done else rest[0][0]
-                if rc in (124, 137):
-                    if len(part) == 1:
+                if rc in (124, 137, -9) or stalled:
+                    if len(w["part"]) == 1 and ready:
                         hangs.append(culprit)
+                    elif len(w["part"]) == 1:
+                        crashed.append((culprit, "worker never became ready (startup stalled)"))
                     else:
-                        # re-run the suspect alone (short timeout) and the others without it
                         queue.append([(i, c) for i, c in rest if i == culprit])
                         others = [(i, c) for i, c in rest if i != culprit]
                         if others:
                             queue.append(others)
                 else:
-                    err = (p.stderr.read() or b"").decode("utf-8", "replace")[-600:]
-                    if len(part) == 1:
+                    err = (w["p"].stderr.read() or b"").decode("utf-8", "replace")[-600:]
+                    if len(w["part"]) == 1:
                         crashed.append((culprit, err))
                     else:
                         queue.append([(i, c) for i, c in rest if i == culprit])
@@ -1162,11 +1204,63 @@ def run(tier, seed, replay=None):
         if rc.get("kind") == "layout":
             lay_cases.insert(0, {"version": rc["version"], "content": rc["content"], "origin": "replay",
                                  "edits": [], "seed": 0, "explicit_edit": rc["edited"], "edit_kind": rc["edit"]})
-    t0 = time.time()
     explicit = [c for c in lay_cases if "explicit_edit" in c]
     lay_cases = [c for c in lay_cases if "explicit_edit" not in c]
-    lay_res, lay_hangs, lay_crashed = run_batches("layout", lay_cases, 12, 400, "layout") if lay_cases else ({}, [], [])
-    timings["layout_e2e_s"] = round(time.time() - t0, 1)
+    lex_cases = [{"content": c, "origin": o} for o, c in progs["2.x"]] + [{"content": c, "origin": o} for o, c in broken_v2]
+    # edited variants of a sample (so that blank/comment/scale edits are exercised through the model as well)
+    lex_extra = []
+    if not replay:
+        sys.path.insert(0, C.REPO)
+        from nemoguardrails.colang.v2_x.lang.parser import ColangParser
+        Pp = ColangParser()
+        sample = progs["2.x"][:: max(1, len(progs["2.x"]) // (60 if quick else 400))]
+        for o, c in sample:
+            try:
+                S = v2_safe_newlines(Pp._lark_parser, c)
+            except Exception:
+                continue
+            for kind_e, k in (("blank", 0), ("comment", 0), ("trailing_ws", 0), ("trailing_tab", 0), ("scale", 3)):
+                ed, _ = v2_edit(kind_e, c, S, rng, k)
+                if ed != c:
+                    lex_extra.append({"content": ed, "origin": o + "+" + kind_e})
+    lex_cases += lex_extra
+    v1_cases = [{"content": c, "origin": o} for o, c in progs["1.0"]]
+    v1_extra = []
+    for o, c in progs["1.0"][:: max(1, len(progs["1.0"]) // (80 if quick else 500))]:
+        for kind_e, k in (("blank", 0), ("trailing_ws", 0), ("trailing_tab", 0), ("scale", 3)):
+            v1_extra.append({"content": v1_edit(kind_e, c, rng, k), "origin": o + "+" + kind_e})
+        ls = c.split("\n")
+        if ls:
+            k = rng.randrange(len(ls))
+            ls[k] = rng.choice(["\t", " \t ", "   # c", "#x"]) + ls[k]
+            v1_extra.append({"content": "\n".join(ls), "origin": o + "+prefix"})
+    v1_cases += v1_extra
+    hcases, hdist = hostile_cases(rng, n_hostile, v1_files, v2_files) if n_hostile else ([], {})
+    for rc in replay_cases:
+        if rc.get("kind") == "hostile":
+            hcases.insert(0, {"version": rc["version"], "content": rc["content"], "origin": "replay",
+                              "entries": rc.get("entries", ["from_path", "from_content"])})
+
+    # ---------------------------------------------------------------- one pool of child processes for everything that runs the real parsers
+    pool_cases, pool_ranges = [], {}
+    for kind_p, lst in (("layout", lay_cases), ("lexdiff", lex_cases), ("v1pre", v1_cases), ("hostile", hcases)):
+        pool_ranges[kind_p] = (len(pool_cases), len(lst))
+        pool_cases += [dict(c, kind=kind_p) for c in lst]
+    t0 = time.time()
+    order = list(range(len(pool_cases)))
+    random.Random(seed + 1).shuffle(order)          # mix cheap and expensive cases in every chunk
+    p_res, p_hangs, p_crashed = run_batches([pool_cases[i] for i in order], 3 * C.NPROC, "pool") if pool_cases else ({}, [], [])
+    p_res = {order[i]: r for i, r in p_res.items()}
+    p_hangs = [order[i] for i in p_hangs]
+    p_crashed = [(order[i], e) for i, e in p_crashed]
+    timings["pool_s"] = round(time.time() - t0, 1)
+
+    def pooled(kind_p):
+        a, n = pool_ranges[kind_p]
+        return ({i - a: r for i, r in p_res.items() if a <= i < a + n}, [i - a for i in p_hangs if a <= i < a + n],
+                [(i - a, e) for i, e in p_crashed if a <= i < a + n])
+
+    lay_res, lay_hangs, lay_crashed = pooled("layout")
     lay_stats = {"programs_ok": 0, "programs_rejected": 0, "edits_equal": 0, "edits_same_text": 0, "edits_diff": 0}
     lay_by_kind = {}
     rejected_shipped = []
@@ -1211,27 +1305,7 @@ def run(tier, seed, replay=None):
         out.add_broken("harness:layout-worker-crash", err)
 
     # ---------------------------------------------------------------- (X) lexer/indenter differential
-    lex_cases = [{"content": c, "origin": o} for o, c in progs["2.x"]] + [{"content": c, "origin": o} for o, c in broken_v2]
-    # edited variants of a sample (so that blank/comment/scale edits are exercised through the model as well)
-    lex_extra = []
-    if not replay:
-        sys.path.insert(0, C.REPO)
-        from nemoguardrails.colang.v2_x.lang.parser import ColangParser
-        Pp = ColangParser()
-        sample = progs["2.x"][:: max(1, len(progs["2.x"]) // (60 if quick else 400))]
-        for o, c in sample:
-            try:
-                S = v2_safe_newlines(Pp._lark_parser, c)
-            except Exception:
-                continue
-            for kind_e, k in (("blank", 0), ("comment", 0), ("trailing_ws", 0), ("trailing_tab", 0), ("scale", 3)):
-                ed, _ = v2_edit(kind_e, c, S, rng, k)
-                if ed != c:
-                    lex_extra.append({"content": ed, "origin": o + "+" + kind_e})
-    lex_cases += lex_extra
-    t0 = time.time()
-    lex_res, lex_hangs, lex_crashed = run_batches("lexdiff", lex_cases, 25, 300, "lexdiff") if lex_cases else ({}, [], [])
-    timings["lexdiff_impl_s"] = round(time.time() - t0, 1)
+    lex_res, lex_hangs, lex_crashed = pooled("lexdiff")
     lterms, lkept, lskip = [], [], {}
     lex_shapes = {"complete": 0, "prefix": 0, "lexerror": 0, "dedent_error": 0}
     for i, c in enumerate(lex_cases):
@@ -1271,19 +1345,8 @@ def run(tier, seed, replay=None):
         out.add_broken("harness:lexdiff-worker-crash", err)
 
     # ---------------------------------------------------------------- (X) v1 pre-processing differential
-    v1_cases = [{"content": c, "origin": o} for o, c in progs["1.0"]]
-    v1_extra = []
-    for o, c in progs["1.0"][:: max(1, len(progs["1.0"]) // (80 if quick else 500))]:
-        for kind_e, k in (("blank", 0), ("trailing_ws", 0), ("trailing_tab", 0), ("scale", 3)):
-            v1_extra.append({"content": v1_edit(kind_e, c, rng, k), "origin": o + "+" + kind_e})
-        ls = c.split("\n")
-        if ls:
-            k = rng.randrange(len(ls))
-            ls[k] = rng.choice(["\t", " \t ", "   # c", "#x"]) + ls[k]
-            v1_extra.append({"content": "\n".join(ls), "origin": o + "+prefix"})
-    v1_cases += v1_extra
     t0 = time.time()
-    v1_res, _, v1_crashed = run_batches("v1pre", v1_cases, 60, 300, "v1pre") if v1_cases else ({}, [], [])
+    v1_res, _, v1_crashed = pooled("v1pre")
     vterms, vkept, vskip = [], [], 0
     for i, c in enumerate(v1_cases):
         r = v1_res.get(i)
@@ -1311,14 +1374,7 @@ def run(tier, seed, replay=None):
         out.add_broken("harness:v1pre-worker-crash", err)
 
     # ---------------------------------------------------------------- hostile corpus through the real loaders (oracle, second half)
-    hcases, hdist = hostile_cases(rng, n_hostile, v1_files, v2_files) if n_hostile else ([], {})
-    for rc in replay_cases:
-        if rc.get("kind") == "hostile":
-            hcases.insert(0, {"version": rc["version"], "content": rc["content"], "origin": "replay",
-                              "entries": rc.get("entries", ["from_path", "from_content"])})
-    t0 = time.time()
-    h_res, h_hangs, h_crashed = run_batches("hostile", hcases, 80 if quick else 250, 300, "hostile") if hcases else ({}, [], [])
-    timings["hostile_s"] = round(time.time() - t0, 1)
+    h_res, h_hangs, h_crashed = pooled("hostile")
     h_hist = {}
     h_by_sig = {}
     for i, c in enumerate(hcases):
@@ -1335,7 +1391,7 @@ def run(tier, seed, replay=None):
         out.findings.append(C.Finding(sig, f"{entry} raised {res[1]} ({res[3][:80]!r}) for a colang_version {c['version']} file; {len(lst)} inputs",
                                       {"kind": "hostile", "version": c["version"], "content": c2, "entries": [entry],
                                        "origin": c["origin"], "observed": res}))
-    for i in h_hangs:
+    for i in sorted(h_hangs, key=lambda i: len(hcases[i]["content"])):
         c = hcases[i]
         out.findings.append(C.Finding(f"v{c['version'][0]}:loader-hang", f"loading did not finish within the timeout ({c['origin']})",
                                       {"kind": "hostile", "version": c["version"], "content": c["content"]}))
@@ -1401,8 +1457,8 @@ def _shrink_hostile(c, entry, sig, budget=60):
         return content
 
     def same(cands):
-        res, hangs, crashed = run_batches("hostile", [{"version": c["version"], "content": x, "entries": [entry]} for x in cands],
-                                          8, 120, "shrink")
+        res, hangs, crashed = run_batches([{"kind": "hostile", "version": c["version"], "content": x, "entries": [entry]} for x in cands],
+                                          8, "shrink")
         return [i for i in range(len(cands)) if res.get(i, {}).get(entry, [None, None, None])[0] == "escape"
                 and res[i][entry][2] == sig]
 
